@@ -65,7 +65,8 @@ def check(case):
 
 def search(item, seed):
     rnd = random.Random(seed * 17 + 1)
-    yaws = [0.0, 0.5, -0.5, 1.0, -1.0, 2.0, -2.0, 3.0, -3.0, math.pi / 2, -math.pi / 2, 3.1, -3.1]
+    # ... including headings exactly at (and next to) the wrap-around: +-pi is where a matrix -> quaternion conversion has w = 0
+    yaws = [0.0, 0.5, -0.5, 1.0, -1.0, 2.0, -2.0, 3.0, -3.0, math.pi / 2, -math.pi / 2, 3.1, -3.1, math.pi, -math.pi, math.pi - 1e-9]
     cases = [dict(yaw_est=a, yaw_gt=b, neg_est=ne, neg_gt=ng, frame=f) for a in yaws for b in yaws for ne in (False, True) for ng in (False, True) for f in ("base_link", "map")]
     # small roll / pitch on either object, or the same tilt on both (a common slope): the yaw angles, hence d, are unchanged
     tilts = [(0.1, 0.1), (0.05, -0.1), (-0.08, 0.0), (0.0, 0.12)]
@@ -74,7 +75,7 @@ def search(item, seed):
         k = rnd.random()
         cases.append(dict(c, tilt_est=t) if k < 0.4 else dict(c, tilt_gt=t) if k < 0.7 else dict(c, tilt_est=t, tilt_gt=t))
     rnd.shuffle(cases)
-    for case in cases[:600]:
+    for case in cases[:900]:
         why = check(case)
         if why:
             return dict(function="heading", input=case, observed=why)
